@@ -136,8 +136,10 @@ func (s *state) handleAction(act *milter.Action) module.CheckResult {
 		return module.CheckResult{
 			Reject: true,
 			Reason: &exterrors.SMTPError{
-				Code:         act.SMTPCode,
-				EnhancedCode: exterrors.EnhancedCode{5, 7, 1},
+				Code: act.SMTPCode,
+				// The class is the one of the code chosen by the milter
+				// (it can be 4xx).
+				EnhancedCode: exterrors.EnhancedCode{act.SMTPCode / 100, 7, 1},
 				Message:      "Message rejected due to local policy",
 				Reason:       "reply code action",
 				CheckName:    "milter",
